@@ -60,6 +60,27 @@ def make_operand(m, tag, kind, named=False):
             leaves[','.join(str(i) for i in idx)] = sub.name
             defs[sub.name] = sub.function_string
         return e, dict(kind='derived', name=tag, op=op, shape=list(shape), named=False, bases=[dx, dy] if partner != 'S' else [dy, dx], leaves=leaves, defs=defs)
+    if isinstance(kind, tuple) and kind and kind[0] == 'M':
+        # a NAMED array whose member names differ from the standard ones (k0.. / r0.. / c0..): 'other' = other names, 'perm' = same
+        # names in another order
+        _, shape, variant = kind
+        def names(prefix, n_):
+            base = ['%s%d' % (prefix, i) for i in range(n_)]
+            return [x + 'x' for x in base] if variant == 'other' else list(reversed(base))
+        e = m.constant(tag)
+        leaves, values = {}, {}
+        if len(shape) == 1:
+            nms = names('k', shape[0])
+            e.setup_named_vector({nm: leafval(tag, (i,)) for i, nm in enumerate(nms)})
+            for i, nm in enumerate(nms):
+                leaves[str(i)] = e[nm].name; values[str(i)] = leafval(tag, (i,))
+        else:
+            rows, cols = ['r%d' % i for i in range(shape[0])], names('c', shape[1])
+            e.setup_named_matrix({rn: {cn: leafval(tag, (i, j)) for j, cn in enumerate(cols)} for i, rn in enumerate(rows)})
+            for i, rn in enumerate(rows):
+                for j, cn in enumerate(cols):
+                    leaves['%d,%d' % (i, j)] = e[rn][cn].name; values['%d,%d' % (i, j)] = leafval(tag, (i, j))
+        return e, dict(kind='array', name=tag, shape=list(shape), named=True, names_variant=variant, leaves=leaves, values=values)
     if isinstance(kind, tuple) and kind and kind[0] == 'R':
         # an array that was used with shape s0 and is then set up again, in place, with the wider shape s1
         _, s0, s1 = kind
@@ -239,6 +260,16 @@ def main():
                         emit(run_case(form, (s, s, s)))
                 else:
                     emit(run_case(form, (s, s, s)))
+        # named arrays whose index NAMES do not match (same shape): must be refused or yield no value
+        for form in ('add', 'sub', 'mul', 'div'):
+            for sh in [x for x in shp if all(n <= min(BOUND, 3) for n in x)]:
+                if len(sh) == 1 and sh[0] < 2:
+                    continue
+                if len(sh) == 2 and sh[1] < 2:
+                    continue
+                for variant in ('other',):   # (same names in another order are combined by NAME: a match, not enumerated here)
+                    emit(run_case(form, (sh, ('M', sh, variant)), named=True))
+                    emit(run_case(form, (('M', sh, variant), sh), named=True))
         # aggregates and operators over DERIVED arrays (members are operator equations)
         small = [x for x in shp if all(n <= min(BOUND, 3) for n in x)]
         for op in ('add', 'sub', 'mul', 'div'):
